@@ -360,7 +360,7 @@ func (d *disjunction) Parse(ctx *parseContext, parent reflect.Value) (out []refl
 		} else if value != nil {
 			bt := branch.RawPeek()
 			ct := ctx.RawPeek()
-			if bt == ct && bt.Type != lexer.EOF {
+			if bt == ct && !branch.Peek().EOF() { // Elided tokens before the end of the input are no progress to demand.
 				panic(Errorf(bt.Pos, "branch %s was accepted but did not progress the lexer at %s (%q)", a, bt.Pos, bt.Value))
 			}
 			ctx.Accept(branch)
